@@ -358,6 +358,12 @@ func verbatimImport(r *core.Run, imp []ast.Node, info *types.Info) {
 			if rhs == nil {
 				return true
 			}
+			// a value named once before it is used (`jsonName := f(prop.Name)` … `JSONName: jsonName`)
+			if id, ok := core.Unparen(rhs).(*ast.Ident); ok {
+				if def := soleDefinition(info, id); def != nil {
+					rhs = def
+				}
+			}
 			bt, ok := info.TypeOf(rhs).Underlying().(*types.Basic)
 			if !ok {
 				// collections of strings (option info, lists of names) are copied the same way
